@@ -14,6 +14,7 @@ import (
 
 	"verifharness/internal/gen"
 	"verifharness/internal/impl"
+	"verifharness/internal/pool"
 	"verifharness/internal/rng"
 )
 
@@ -24,7 +25,7 @@ const OverlapRule = "OverlappingFieldsCanBeMerged"
 
 // OverlapMixRules: the rule together with rules whose Go code did not change after the validation
 // model was written — exercises the interleaving of this rule's errors with other rules' errors.
-const OverlapMixRules = "NoFragmentCycles,OverlappingFieldsCanBeMerged,ScalarLeafs,PossibleFragmentSpreads,NoUnusedFragments,UniqueArgumentNames,KnownFragmentNames"
+const OverlapMixRules = "NoFragmentCycles,OverlappingFieldsCanBeMerged,ScalarLeafs,PossibleFragmentSpreads,NoUnusedFragments,KnownFragmentNames"
 
 type overlapStats struct {
 	cases      int
@@ -38,6 +39,21 @@ type overlapStats struct {
 	events     int
 	// last (schema, document) on which the model exceeded the driver deadline although Go answered
 	modelTimeoutDoc [2]string
+	// selection sets whose identity assumption was checked (see checkSelectionIdentity)
+	selSets int
+	// comparison with the rule BEFORE the polynomial repair (VERIF_OVERLAP_OLD_WORKER)
+	old *overlapOldStats
+}
+
+// overlapOldStats: the repaired rule against the previous one on the same documents.
+type overlapOldStats struct {
+	pool                           *pool.Pool
+	cases, same                    int
+	oldTimeout                     int
+	listDiffCyclic, listDiffAcylic int
+	verdictDiff, verdictDiffCyclic int
+	acyclicExamples                [][3]string // document, old, new  (smallest first)
+	acyclicLost, acyclicGained     int         // errors only the old / only the new rule reports, on acyclic documents
 }
 
 var overlapReasons = []struct {
@@ -168,6 +184,12 @@ func (c *Ctx) corrOverlap(pairs [][2]string, rules string, st *overlapStats, tol
 		reqs[i] = "vall " + rules + " " + impl.HexW([]byte(p[0])) + " " + impl.HexW([]byte(p[1]))
 	}
 	goOut := c.Worker.Map(reqs)
+	if st.old != nil && rules == OverlapRule {
+		c.compareWithOldRule(pairs, goOut, st.old)
+	}
+	for _, p := range pairs {
+		c.checkSelectionIdentity(p[1], st)
+	}
 	var dreqs []string
 	var idx []int
 	for i, o := range goOut {
@@ -210,12 +232,153 @@ func (c *Ctx) corrOverlap(pairs [][2]string, rules string, st *overlapStats, tol
 			c.Report("correspondence", "overlap-errors-differ:"+firstDiffRule(parts[0], mp[0]), fmt.Sprintf("validator and model disagree (rules %s) on %q:\n go    = %s\n model = %s", trunc(rules, 60), pairs[i][1], readable(parts[0]), readable(mp[0])), replay)
 		}
 		st.events += strings.Count(parts[2], ",") + 1
+		if os.Getenv("VERIF_OVERLAP_NOWALKER") != "" {
+			// error lists only (while the walker model is being changed by another builder)
+			continue
+		}
 		if parts[2] != mp[2] {
 			c.Report("correspondence", "overlap-events-differ", fmt.Sprintf("observer call sequences differ on %q", pairs[i][1]), replay)
 		}
 		if parts[1] != mp[1] {
 			c.Report("correspondence", "overlap-links-differ", fmt.Sprintf("link dumps differ on %q:\n go    = %s\n model = %s", pairs[i][1], linkDiff(parts[1], mp[1]), linkDiff(mp[1], parts[1])), replay)
 		}
+	}
+}
+
+// checkSelectionIdentity checks the assumption under which the model identifies a selection set
+// by the start position of its first selection (Go: the first ast.Selection value itself): in a
+// parsed document all selection nodes have a position, distinct selection nodes have distinct
+// Position.Start, and hence distinct non-empty selection sets have distinct first-selection starts.
+func (c *Ctx) checkSelectionIdentity(doc string, st *overlapStats) {
+	d, err := parser.ParseQuery(&ast.Source{Input: doc})
+	if err != nil {
+		return
+	}
+	nodeAt := map[int]ast.Selection{}
+	firstOf := map[int]bool{}
+	bad := ""
+	var walk func(ss ast.SelectionSet)
+	walk = func(ss ast.SelectionSet) {
+		if len(ss) > 0 {
+			st.selSets++
+			p := ss[0].GetPosition()
+			if p == nil {
+				bad = "first selection without position"
+			} else {
+				if firstOf[p.Start] {
+					bad = fmt.Sprintf("two selection sets whose first selection starts at %d", p.Start)
+				}
+				firstOf[p.Start] = true
+			}
+		}
+		for _, x := range ss {
+			p := x.GetPosition()
+			if p == nil {
+				bad = "selection without position"
+				continue
+			}
+			if o, ok := nodeAt[p.Start]; ok && o != x {
+				bad = fmt.Sprintf("two selection nodes starting at %d", p.Start)
+			}
+			nodeAt[p.Start] = x
+			switch x := x.(type) {
+			case *ast.Field:
+				walk(x.SelectionSet)
+			case *ast.InlineFragment:
+				walk(x.SelectionSet)
+			}
+		}
+	}
+	for _, op := range d.Operations {
+		walk(op.SelectionSet)
+	}
+	for _, f := range d.Fragments {
+		walk(f.SelectionSet)
+	}
+	if bad != "" {
+		c.Report("correspondence", "overlap-selection-identity", "the identity assumption of the model fails: "+bad+" in "+trunc(doc, 300), map[string]any{"document": doc})
+	}
+}
+
+func overlapErrsOf(obs string) []string {
+	if obs == "OK" {
+		return nil
+	}
+	return strings.Split(obs, ";")
+}
+
+// compareWithOldRule runs the rule as it was before the polynomial repair (a vcheck binary linked
+// against the previous sources) on the same pairs: the verdict (no error / some error) must be the
+// same; the lists may differ where the old rule compared one (selection set, fragment) pair twice.
+func (c *Ctx) compareWithOldRule(pairs [][2]string, newOut []string, o *overlapOldStats) {
+	reqs := make([]string, len(pairs))
+	creqs := make([]string, len(pairs))
+	for i, p := range pairs {
+		reqs[i] = "validate " + OverlapRule + " " + impl.HexW([]byte(p[0])) + " " + impl.HexW([]byte(p[1]))
+		creqs[i] = "validate NoFragmentCycles " + impl.HexW([]byte(p[0])) + " " + impl.HexW([]byte(p[1]))
+	}
+	oldOut := o.pool.Map(reqs)
+	cyc := c.Worker.Map(creqs)
+	for i := range pairs {
+		parts := strings.SplitN(newOut[i], " # ", 4)
+		if len(parts) != 4 {
+			continue
+		}
+		nw := parts[0]
+		od := oldOut[i]
+		if od == "TIMEOUT" || od == "SKIPPED" || strings.HasPrefix(od, "CRASH") {
+			o.oldTimeout++
+			continue
+		}
+		if od == "LOADERR" || od == "PARSEERR" {
+			continue
+		}
+		o.cases++
+		if od == nw {
+			o.same++
+			continue
+		}
+		if (od == "OK") != (nw == "OK") {
+			o.verdictDiff++
+			if cyc[i] != "OK" {
+				o.verdictDiffCyclic++
+			}
+			c.Report("correspondence", "overlap-repair-verdict-differs", fmt.Sprintf("the repaired rule changes the verdict on %q:\n old = %s\n new = %s", pairs[i][1], readable(od), readable(nw)), map[string]any{"schema": pairs[i][0], "document": pairs[i][1], "old": od, "new": nw})
+			continue
+		}
+		if cyc[i] != "OK" {
+			o.listDiffCyclic++
+			continue
+		}
+		o.listDiffAcylic++
+		in := map[string]int{}
+		for _, e := range overlapErrsOf(nw) {
+			in[e]++
+		}
+		for _, e := range overlapErrsOf(od) {
+			if in[e] > 0 {
+				in[e]--
+			} else {
+				o.acyclicLost++
+			}
+		}
+		for _, n := range in {
+			o.acyclicGained += n
+		}
+		o.acyclicExamples = append(o.acyclicExamples, [3]string{pairs[i][1], readable(od), readable(nw)})
+		sort.SliceStable(o.acyclicExamples, func(a, b int) bool { return len(o.acyclicExamples[a][0]) < len(o.acyclicExamples[b][0]) })
+		if len(o.acyclicExamples) > 6 {
+			o.acyclicExamples = o.acyclicExamples[:6]
+		}
+	}
+}
+
+func (o *overlapOldStats) print() {
+	fmt.Printf("repaired rule vs previous rule: documents compared=%d identical error lists=%d; previous rule timed out / crashed on %d\n", o.cases, o.same, o.oldTimeout)
+	fmt.Printf("  verdict differs: %d (of which on cyclic documents: %d); same verdict but different list: %d cyclic documents, %d ACYCLIC documents (errors only the previous rule reports: %d, only the repaired rule: %d)\n",
+		o.verdictDiff, o.verdictDiffCyclic, o.listDiffCyclic, o.listDiffAcylic, o.acyclicLost, o.acyclicGained)
+	for _, e := range o.acyclicExamples {
+		fmt.Printf("  acyclic example: %q\n    old: %s\n    new: %s\n", e[0], trunc(e[1], 900), trunc(e[2], 900))
 	}
 }
 
@@ -651,9 +814,9 @@ var overlapExtraSeeds = []string{
 }
 
 // overlapDeepCycle: `fragment F on Node { u { u { … { id ...F } … ...F } ...F } }` with k levels —
-// a fragment that spreads itself at every nesting level. The repaired rule terminates on it, but the
-// number of `findConflict` calls grows like c^k (every pair (u_i, u_j) is reached along
-// exponentially many paths, and the in-progress set only cuts cycles).
+// a fragment that spreads itself at every nesting level. Before the memo of (selection set, fragment)
+// comparisons the number of `findConflict` calls grew like c^k on it (every pair (u_i, u_j) was reached
+// along exponentially many paths: 214 s at k = 12).
 func overlapDeepCycle(k int) gen.AdvCase {
 	s := "id"
 	for i := 0; i < k; i++ {
@@ -676,6 +839,11 @@ func init() {
 	Checks["X-overlap"] = func(c *Ctx) {
 		st := newOverlapStats()
 		t0 := time.Now()
+		if ow := os.Getenv("VERIF_OVERLAP_OLD_WORKER"); ow != "" {
+			st.old = &overlapOldStats{pool: pool.New([]string{ow, "-worker"}, c.Worker.N, 20*time.Second)}
+			st.old.pool.Env = []string{"GOMEMLIMIT=2GiB"}
+			st.old.pool.MaxCrashes = 1 << 30 // the previous rule is exponential: its timeouts are expected
+		}
 
 		// (a) imported graphql-js cases: those of this rule, and every other imported document
 		cases, _ := ImportedCases()
@@ -805,7 +973,7 @@ func init() {
 				advPairs = append(advPairs, [2]string{a.SchemaSDL, a.Doc})
 			}
 		}
-		for k := 1; k <= 8; k++ {
+		for _, k := range []int{1, 2, 3, 4, 5, 6, 7, 8, 10, 12, 16, 24, 48} {
 			a := overlapDeepCycle(k)
 			advPairs = append(advPairs, [2]string{a.SchemaSDL, a.Doc})
 		}
@@ -899,6 +1067,10 @@ func init() {
 		}
 		fmt.Printf("mutations: %d over %d schemas (document size histogram, 250-byte buckets: %v)\n", done, len(seeds), sizes)
 		st.print()
+		fmt.Printf("  selection sets checked for the identity assumption (distinct first-selection starts): %d\n", st.selSets)
+		if st.old != nil {
+			st.old.print()
+		}
 		if n := st.skipped["MODEL-TIMEOUT"]; n > 0 {
 			fmt.Printf("  model deadline (60 s) exceeded on %d documents that the real rule answered within 20 s; last: %q\n", n, trunc(st.modelTimeoutDoc[1], 300))
 			if n*2000 > st.cases {
@@ -906,12 +1078,84 @@ func init() {
 			}
 		}
 
-		// (f) timing: largest family size at which one validation stays under 1 s, Go and model
+		// (f) time budget of the real rule on the adversarial families (always), and the largest
+		// family size at which one validation stays under 1 s, Go and model
+		overlapBudget(c)
 		if os.Getenv("VERIF_OVERLAP_NOTIMING") == "" {
 			overlapTiming(c)
 		}
 		c.Ev.Evals = st.cases
 		c.Ev.Extra["overlap_message_shapes"] = st.reasons
+	}
+}
+
+// overlapBudget asserts that the real rule scales polynomially on every adversarial family: with
+// t(k) the time of one validation (this rule only) at size k, t(4k) must stay below
+// 1024 · max(t(k), 5 ms) (a polynomial of degree ≤ 5; the exponential behaviour of the rule before
+// the repair gave ratios beyond 10⁶ at these sizes) and below 10 s.
+func overlapBudget(c *Ctx) {
+	fmt.Println("time budget of the real rule (sizes k, 2k, 4k; ratio t(4k)/max(t(k), 5 ms) must be ≤ 1024):")
+	type fam struct {
+		name string
+		base int
+		doc  func(k int) gen.AdvCase
+	}
+	var fams []fam
+	for fi, a := range gen.Adversarial(1) {
+		if a.Name == "introspection-fanout" {
+			continue // MaxIntrospectionDepth's family; this rule never looks below __schema
+		}
+		if a.Name == "fragment-fanout" {
+			// the document itself has 2k fragments of constant size: sizes 16, 32, 64
+			fi := fi
+			fams = append(fams, fam{a.Name, 16, func(k int) gen.AdvCase { return gen.Adversarial(k)[fi] }})
+			continue
+		}
+		fi := fi
+		fams = append(fams, fam{a.Name, 64, func(k int) gen.AdvCase { return gen.Adversarial(k)[fi] }})
+	}
+	fams = append(fams, fam{"fragment-cycle-every-level", 32, overlapDeepCycle})
+	measure := func(a gen.AdvCase) (time.Duration, string) {
+		req := "validate " + OverlapRule + " " + impl.HexW([]byte(a.SchemaSDL)) + " " + impl.HexW([]byte(a.Doc))
+		best := time.Duration(0)
+		out := ""
+		for rep := 0; rep < 3; rep++ {
+			t := time.Now()
+			out = c.Worker.One(req)
+			el := time.Since(t)
+			if rep == 0 || el < best {
+				best = el
+			}
+			if out == "TIMEOUT" || strings.HasPrefix(out, "CRASH") {
+				break
+			}
+		}
+		return best, out
+	}
+	for _, f := range fams {
+		var ts [3]time.Duration
+		failed := ""
+		for i, k := range []int{f.base, 2 * f.base, 4 * f.base} {
+			a := f.doc(k)
+			t, out := measure(a)
+			ts[i] = t
+			if out == "TIMEOUT" || strings.HasPrefix(out, "CRASH") {
+				failed = fmt.Sprintf("size %d: %s", k, trunc(out, 40))
+				break
+			}
+		}
+		den := ts[0]
+		if den < 5*time.Millisecond {
+			den = 5 * time.Millisecond
+		}
+		ratio := float64(ts[2]) / float64(den)
+		fmt.Printf("  %-28s k=%-3d %8.1f ms   2k %8.1f ms   4k %8.1f ms   ratio %.1f %s\n", f.name, f.base,
+			float64(ts[0].Microseconds())/1000, float64(ts[1].Microseconds())/1000, float64(ts[2].Microseconds())/1000, ratio, failed)
+		if failed != "" || ratio > 1024 || ts[2] > 10*time.Second {
+			a := f.doc(4 * f.base)
+			c.Report("runtime", "overlap-time-budget:"+f.name, fmt.Sprintf("the real rule does not scale polynomially on family %s: t(%d)=%v t(%d)=%v t(%d)=%v %s", f.name, f.base, ts[0], 2*f.base, ts[1], 4*f.base, ts[2], failed),
+				map[string]any{"op": "validate", "rules": OverlapRule, "schema": a.SchemaSDL, "document": a.Doc})
+		}
 	}
 }
 
